@@ -13,16 +13,18 @@ use std::collections::BTreeMap;
 use time::Duration;
 
 #[derive(Clone, Debug)]
-pub struct SplitPair { pub base: Vec<HRow>, pub with_split: Vec<HRow>, pub a: String, pub b: String, pub split_date: String, pub per_affiliate: bool, pub tags: Vec<String> }
+pub struct SplitPair { pub base: Vec<HRow>, pub with_split: Vec<HRow>, pub a: String, pub b: String, pub split_date: String, pub per_affiliate: bool, pub tags: Vec<String>,
+    /// opening position of the default affiliate (--symbol-base FOO:<shares>:<cost>) given to both runs
+    pub opening: Option<(String, String)> }
 
 impl SplitPair {
     fn to_json(&self) -> JsonValue {
-        json::object! { base_csv: crate::gen::to_csv(&self.base), split_csv: crate::gen::to_csv(&self.with_split), base: self.base.iter().map(|r| r.to_json()).collect::<Vec<_>>(), with_split: self.with_split.iter().map(|r| r.to_json()).collect::<Vec<_>>(), a: self.a.as_str(), b: self.b.as_str(), split_date: self.split_date.as_str(), per_affiliate: self.per_affiliate }
+        json::object! { base_csv: crate::gen::to_csv(&self.base), split_csv: crate::gen::to_csv(&self.with_split), base: self.base.iter().map(|r| r.to_json()).collect::<Vec<_>>(), with_split: self.with_split.iter().map(|r| r.to_json()).collect::<Vec<_>>(), a: self.a.as_str(), b: self.b.as_str(), split_date: self.split_date.as_str(), per_affiliate: self.per_affiliate, opening: match &self.opening { Some((n, c)) => format!("{n}:{c}").into(), None => JsonValue::Null } }
     }
     fn from_json(v: &JsonValue) -> Option<SplitPair> {
         let base: Option<Vec<HRow>> = v["base"].members().map(HRow::from_json).collect();
         let ws: Option<Vec<HRow>> = v["with_split"].members().map(HRow::from_json).collect();
-        Some(SplitPair { base: base?, with_split: ws?, a: v["a"].as_str()?.into(), b: v["b"].as_str()?.into(), split_date: v["split_date"].as_str()?.into(), per_affiliate: v["per_affiliate"].as_bool()?, tags: vec![] })
+        Some(SplitPair { base: base?, with_split: ws?, a: v["a"].as_str()?.into(), b: v["b"].as_str()?.into(), split_date: v["split_date"].as_str()?.into(), per_affiliate: v["per_affiliate"].as_bool()?, tags: vec![], opening: v["opening"].as_str().and_then(|o| o.split_once(':')).map(|(n, c)| (n.to_string(), c.to_string())) })
     }
 }
 
@@ -54,6 +56,9 @@ fn build(head: &Intent, pre: &[Intent], events: &[Intent]) -> SplitPair {
     struct Rat0(Rat);
     impl Default for Rat0 { fn default() -> Self { Rat0(Rat::zero()) } }
     let mut st: BTreeMap<String, St> = BTreeMap::new();
+    // a quarter of the histories start from an opening position of the default affiliate (who may then have no rows of its own)
+    let opening: Option<(String, String)> = if head.sfl % 4 == 0 { Some(pick(head.sfl / 4, &[("9", "90"), ("30", "100.5"), ("300", "0"), ("3", "1000")])).map(|(n, c)| (n.to_string(), c.to_string())) } else { None };
+    if let Some((n, c)) = &opening { st.insert("default".into(), St { bal: Rat0(Rat::parse(n).unwrap()), acb: Rat0(Rat::parse(c).unwrap()) }); }
     let mut base: Vec<HRow> = vec![];
     let mut later: Vec<bool> = vec![];
     for (pos, e) in tl.iter().enumerate() {
@@ -112,7 +117,9 @@ fn build(head: &Intent, pre: &[Intent], events: &[Intent]) -> SplitPair {
     // H': split rows + restated later rows
     let per_affiliate = head.cur % 2 == 0;
     let ratio = if b.gt(&a) || sa.contains('.') { format!("{}-for-{}", if sa.contains('.') { sa.to_string() } else { format!("{sa}.0") }, if sb.contains('.') { sb.to_string() } else { format!("{sb}.0") }) } else { format!("{sa}-for-{sb}") };
-    let mut ids: Vec<String> = base.iter().map(|r| r.af.clone()).collect(); ids.sort(); ids.dedup();
+    let mut ids: Vec<String> = base.iter().map(|r| r.af.clone()).collect();
+    if opening.is_some() && !ids.iter().any(|a| affiliate_id(a).0 == "default") { ids.push(String::new()); }
+    ids.sort(); ids.dedup();
     // a third of the splits that factor are entered as two successive splits on the same day (6-for-1 as 2-for-1 then 3-for-1, ...)
     let fmt = |x: &str, y: &str| -> String { let (rx, ry) = (Rat::parse(x).unwrap(), Rat::parse(y).unwrap()); if ry.gt(&rx) || x.contains('.') { format!("{}-for-{}", if x.contains('.') { x.to_string() } else { format!("{x}.0") }, if y.contains('.') { y.to_string() } else { format!("{y}.0") }) } else { format!("{x}-for-{y}") } };
     let chain: Vec<String> = if head.ccur % 3 == 0 {
@@ -136,7 +143,8 @@ fn build(head: &Intent, pre: &[Intent], events: &[Intent]) -> SplitPair {
         with_split.push(c);
     }
     if !inserted { with_split.extend(split_rows.iter().cloned()); }
-    SplitPair { base, with_split, a: sa.into(), b: sb.into(), split_date: split_date.to_string(), per_affiliate, tags: vec![] }
+    // one split row per affiliate: the opening holder needs its own row too
+    SplitPair { base, with_split, a: sa.into(), b: sb.into(), split_date: split_date.to_string(), per_affiliate, tags: vec![], opening }
 }
 
 fn strategy(_t: Tier) -> BoxedStrategy<SplitPair> {
@@ -155,14 +163,15 @@ fn user_units(rows: &[NRow]) -> Vec<(NRow, BTreeMap<String, Rat>)> {
 }
 
 fn check(c: &SplitPair, obs: &mut Obs) -> Verdict {
-    let opts = RunOpts::default();
+    let opts = RunOpts { symbol_base: c.opening.iter().map(|(n, cst)| format!("FOO:{n}:{cst}")).collect(), ..RunOpts::default() };
+    let opening_rat = c.opening.as_ref().map(|(n, cst)| (Rat::parse(n).unwrap(), Rat::parse(cst).unwrap()));
     let f1 = vec![("base.csv".to_string(), crate::gen::to_csv(&c.base))];
     let f2 = vec![("split.csv".to_string(), crate::gen::to_csv(&c.with_split))];
     let ctx = || format!("BASE\n{}WITH {}-for-{} split on {} ({})\n{}", f1[0].1, c.a, c.b, c.split_date, if c.per_affiliate { "one row per affiliate" } else { "one row for all affiliates" }, f2[0].1);
     let r1 = match run_deltas(&f1, &opts) { Ok(r) => r, Err(RunErr::Panic(p)) => return classify_panic(&p, &f1[0].1), Err(_) => return Verdict::Skip("base-run-error".into()) };
     let r2 = match run_deltas(&f2, &opts) { Ok(r) => r, Err(RunErr::Panic(p)) => return classify_panic(&p, &f2[0].1), Err(RunErr::Run(e)) => return Verdict::Fail(format!("history with split fails as a whole: {e}\n{}", ctx())), Err(RunErr::BadInit(e)) => return Verdict::Fail(e) };
     let (Some(t1), Some(t2)) = (r1.get("FOO"), r2.get("FOO")) else { return Verdict::Skip("empty".into()); };
-    let (m1, m2) = (model_for(&c.base, None), model_for(&c.with_split, None));
+    let (m1, m2) = (model_for(&c.base, opening_rat.clone()), model_for(&c.with_split, opening_rat.clone()));
     // when the tool and the exact model disagree on one side for a recorded rounding-residue reason, that explains any difference
     let residue = |rows: &[HRow], model: &crate::model::MResult, tool: &crate::observe::SecResult| -> Option<&'static str> {
         if let Some(msg) = &tool.err { if model.err.is_none() { return super::c04::residue_class(rows, model, msg); } return None; }
@@ -209,12 +218,13 @@ fn check(c: &SplitPair, obs: &mut Obs) -> Verdict {
     if first_row.values().any(|d| *d > sd) { obs.nt("an-affiliate-holds-nothing-at-the-split"); }
     obs.class(format!("ratio:{}-for-{}", c.a, c.b));
     obs.class(if c.per_affiliate { "per-affiliate-rows" } else { "one-row-for-all" });
+    if c.opening.is_some() { obs.class("opening-position"); if !c.base.iter().any(|r| affiliate_id(&r.af).0 == "default") { obs.nt("opening-holder-without-rows-of-its-own"); } }
     { let mut per: BTreeMap<String, usize> = BTreeMap::new(); for r in c.with_split.iter().filter(|r| r.act == Act::Split) { *per.entry(r.af.clone()).or_insert(0) += 1; } if per.values().any(|n| *n >= 2) { obs.class("entered-as-two-successive-splits"); } }
     Verdict::Pass
 }
 
 pub fn def() -> PropDef {
-    let mut d = PropDef::new("C15", "window scenarios H (1-4 affiliates incl. registered, an anchor loss sale, 0-7 further buys/sales/RoC at boundary-weighted offsets; all share quantities multiples of 3 and later per-share amounts multiples of a, so the restated history is exactly representable) and H' = H with an a-for-b split inserted at a random position (same day before a row, or the day before) as one row for all affiliates or one row per affiliate (a third of the ratios that factor are entered as two successive same-day splits), later quantities x a/b and later per-share amounts x b/a; ratios 2-1, 3-1, 4-1, 5-1, 10-1, 1-2, 1-3, 1-4, 1-6, 1-10, 3-2, 2-3, 4-3, 5-2, 7-3, 1.5-1. Both runs must agree on accept/reject; every corresponding row must show the same gain, superficial loss, total ACB and automatic adjustments (1e-9) and share balances scaled by a/b. Non-trivial = the split lies within 30 days of a loss sale, or an affiliate holds nothing at the split. Distinct = distinct case content.");
+    let mut d = PropDef::new("C15", "window scenarios H (1-4 affiliates incl. registered, a quarter with an opening position of the default affiliate, an anchor loss sale, 0-7 further buys/sales/RoC at boundary-weighted offsets; all share quantities multiples of 3 and later per-share amounts multiples of a, so the restated history is exactly representable) and H' = H with an a-for-b split inserted at a random position (same day before a row, or the day before) as one row for all affiliates or one row per affiliate (a third of the ratios that factor are entered as two successive same-day splits), later quantities x a/b and later per-share amounts x b/a; ratios 2-1, 3-1, 4-1, 5-1, 10-1, 1-2, 1-3, 1-4, 1-6, 1-10, 3-2, 2-3, 4-3, 5-2, 7-3, 1.5-1. Both runs must agree on accept/reject; every corresponding row must show the same gain, superficial loss, total ACB and automatic adjustments (1e-9) and share balances scaled by a/b. Non-trivial = the split lies within 30 days of a loss sale, or an affiliate holds nothing at the split, or the opening holder has no rows of its own. Distinct = distinct case content.");
     d.assumptions = vec!["base histories contain no other split", "USD rows are not used (rates are irrelevant to neutrality)"];
     d.subs.push(Box::new(Sub::<SplitPair> { name: "neutral", cases_quick: 60_000, cases_thorough: 600_000, strategy: Box::new(strategy), to_json: SplitPair::to_json, from_json: SplitPair::from_json, check }));
     d
